@@ -197,11 +197,11 @@ theorem step_s0_stale (orc : Oracle) (M M' : PM) (F F' : Frame) (rest rest' : Li
           have hline : True := trivial
           generalize writeBack p F = w at e1 ⊢
           generalize writeBack p' F' = w' at e1 ⊢
-          have hp2 : eraseFrame { w with cfg := w.cfg.setLine F.cfg.line } = eraseFrame { w' with cfg := w'.cfg.setLine F'.cfg.line } := by
+          have hp2 : eraseFrame { w with cfg := w.cfg.afterSection F.cfg } = eraseFrame { w' with cfg := w'.cfg.afterSection F'.cfg } := by
             rw [eraseFrame_eq_iff] at e1 ⊢
             obtain ⟨b1, b2, b3, b4, b5, b6, b7, b8, b9, b10⟩ := e1
             exact ⟨by simpa using b1, b2, b3, b4, b5, b6, b7, b8, b9, b10⟩
-          have hp3 : eraseFrame { w with cfg := w.cfg.setLine F.cfg.line, state := .s0 } = eraseFrame { w' with cfg := w'.cfg.setLine F'.cfg.line, state := .s0 } := by
+          have hp3 : eraseFrame { w with cfg := w.cfg.afterSection F.cfg, state := .s0 } = eraseFrame { w' with cfg := w'.cfg.afterSection F'.cfg, state := .s0 } := by
             rw [eraseFrame_eq_iff] at e1 ⊢
             obtain ⟨b1, b2, b3, b4, b5, b6, b7, b8, b9, b10⟩ := e1
             exact ⟨by simpa using b1, b2, rfl, b4, b5, b6, b7, b8, b9, b10⟩
@@ -209,17 +209,17 @@ theorem step_s0_stale (orc : Oracle) (M M' : PM) (F F' : Frame) (rest rest' : Li
           have hk : M.k = M'.k := by
             obtain ⟨_, l2, _⟩ := logsEq_fields hl
             simp [PM.k, l2]
-          have hvv : validVerdict orc M.k { w with cfg := w.cfg.setLine F.cfg.line } = validVerdict orc M'.k { w' with cfg := w'.cfg.setLine F'.cfg.line } := by
+          have hvv : validVerdict orc M.k { w with cfg := w.cfg.afterSection F.cfg } = validVerdict orc M'.k { w' with cfg := w'.cfg.afterSection F'.cfg } := by
             rw [← validVerdict_erase orc M.k _, ← validVerdict_erase orc M'.k _, hp2, hk]
           rw [← hvv]
-          cases validVerdict orc M.k { w with cfg := w.cfg.setLine F.cfg.line } with
+          cases validVerdict orc M.k { w with cfg := w.cfg.afterSection F.cfg } with
           | none =>
             simp only [Option.map_none]
-            have hve : erasePM (vetoed orc M { w with cfg := w.cfg.setLine F.cfg.line }) = erasePM (vetoed orc M' { w' with cfg := w'.cfg.setLine F'.cfg.line }) ∨ True := Or.inr trivial
-            have hlv : LogsEq (vetoed orc M { w with cfg := w.cfg.setLine F.cfg.line }) (vetoed orc M' { w' with cfg := w'.cfg.setLine F'.cfg.line }) := by
+            have hve : erasePM (vetoed orc M { w with cfg := w.cfg.afterSection F.cfg }) = erasePM (vetoed orc M' { w' with cfg := w'.cfg.afterSection F'.cfg }) ∨ True := Or.inr trivial
+            have hlv : LogsEq (vetoed orc M { w with cfg := w.cfg.afterSection F.cfg }) (vetoed orc M' { w' with cfg := w'.cfg.afterSection F'.cfg }) := by
               unfold LogsEq
-              have h1 := vetoed_erase orc { M with frames := [] } { w with cfg := w.cfg.setLine F.cfg.line }
-              have h2 := vetoed_erase orc { M' with frames := [] } { w' with cfg := w'.cfg.setLine F'.cfg.line }
+              have h1 := vetoed_erase orc { M with frames := [] } { w with cfg := w.cfg.afterSection F.cfg }
+              have h2 := vetoed_erase orc { M' with frames := [] } { w' with cfg := w'.cfg.afterSection F'.cfg }
               have hM : erasePM { M with frames := [] } = erasePM { M' with frames := [] } := hl
               rw [hM, hp2] at h1
               have e3 : ∀ (X : PM) (g : Frame), ({ vetoed orc X g with frames := [] } : PM) = vetoed orc { X with frames := [] } g := by
